@@ -108,6 +108,29 @@ func (in *Interp) clockNowMs() int64 {
 	return int64(1704067200000) + k + off
 }
 
+// ctxFireNextDeadline: nobody can run; if a live deadline context exists, the virtual clock jumps to
+// the earliest such deadline and the context expires (its Done channel closes). Reports whether
+// anything fired.
+func (in *Interp) ctxFireNextDeadline() bool {
+	list, _ := in.ext["ctx:deadlines"].([]*ctxState)
+	var next *ctxState
+	for _, s := range list {
+		if s.err.T == nil && s.dlMs >= 0 && (next == nil || s.dlMs < next.dlMs) {
+			next = s
+		}
+	}
+	if next == nil {
+		return false
+	}
+	now := in.clockNowMs()
+	if next.dlMs > now {
+		off, _ := in.ext["clockOffsetMs"].(int64)
+		in.ext["clockOffsetMs"] = off + (next.dlMs - now)
+	}
+	in.ctxExpire()
+	return next.err.T != nil
+}
+
 // ctxExpire ends every deadline context whose deadline the virtual clock has reached.
 func (in *Interp) ctxExpire() {
 	list, _ := in.ext["ctx:deadlines"].([]*ctxState)
@@ -384,12 +407,74 @@ func init() {
 	}
 	intrinsics["verifPollContexts"] = func(in *Interp, fr *frame, a []Value) Value { in.ctxPollForeign(fr); return nil }
 	// verifWait yields to the other goroutines; false when none of them can run
+	intrinsics["verifAwaitClose"] = func(in *Interp, fr *frame, a []Value) Value {
+		ch := a[0].(*ChanV)
+		dl := in.mustConst(a[1].(*Term), "await deadline")
+		for !ch.closed {
+			in.co.current.waitDL = dl
+			if r := intrinsics["verifWait"](in, fr, nil).(*Term); r == in.st.False {
+				break
+			}
+		}
+		if ch.closed {
+			in.raceAcquireVC(ch.closeVC)
+			return in.st.True
+		}
+		if dl == 0 {
+			in.yieldUntil(func() bool { return ch.closed }) // nobody is left to close it: reported as a deadlock
+			return in.st.True
+		}
+		intrinsics["verifClockAdvanceTo"](in, fr, []Value{in.st.Const(uint64(dl+1), 64)})
+		return in.st.False
+	}
+	intrinsics["verifWaitDL"] = func(in *Interp, fr *frame, a []Value) Value {
+		in.co.current.waitDL = in.mustConst(a[0].(*Term), "wait deadline")
+		r := intrinsics["verifWait"](in, fr, nil)
+		return r
+	}
 	intrinsics["verifWait"] = func(in *Interp, fr *frame, a []Value) Value {
-		me := in.co.current
+		// "Can anybody else still do something?"  Other goroutines that are themselves only polling
+		// in verifWait do not count once they have polled since the last real progress: two pollers
+		// must not keep each other waiting for ever.
+		s := in.co
+		me := s.current
 		if in.pickNext(me) == nil {
 			return in.st.False
 		}
+		if a == nil {
+			// called through verifWaitDL: the deadline is set
+		} else {
+			me.waitDL = 0
+		}
+		allIdle, earlier := true, false
+		var busy *coro
+		for _, o := range s.coros {
+			if o == me || !in.runnable(o) {
+				continue
+			}
+			if !(o.inWait && o.polledAt == s.progress) {
+				allIdle = false
+				if busy == nil {
+					busy = o
+				}
+			} else if o.waitDL != 0 && (me.waitDL == 0 || o.waitDL < me.waitDL) {
+				earlier = true // when nothing else can happen, the earliest deadline fires first
+			}
+		}
+		if allIdle && me.polledAt == s.progress && !earlier {
+			return in.st.False
+		}
+		me.polledAt = s.progress
+		me.inWait = true
+		if busy != nil && s.policy != "free" {
+			// whatever the policy, a poller must not starve somebody who has real work to do
+			alt := in.pickNext(me)
+			if alt != nil && alt.inWait && alt.polledAt == s.progress {
+				s.prefer = busy
+			}
+		}
 		in.yieldUntil(nil) // waiting always lets the others run, whatever the policy
+		me.inWait = false
 		return in.st.True
 	}
 }
